@@ -152,6 +152,22 @@ fn run_case(o: &mut Outcome, case: &Value) {
                 o.violate("closing-signature-ignores-slot", &format!("initialize/closing-signature/slot{}", slot), "returned closing signature also verifies with one slot changed".into());
             }
         }
+        // nor on a close state in which value moved between two slots (sum-preserving change)
+        for (i, j) in [(3usize, 4usize), (0, 2), (1, 3), (2, 4), (0, 1), (1, 4)] {
+            let mut other = truth.cl;
+            other[i] += Scalar::one();
+            other[j] -= Scalar::one();
+            if unblinds_to_signature_on(m, &cs, &d.cl.bf, &other) {
+                o.violate("closing-signature-ignores-slot", &format!("initialize/closing-signature/slots{}+{}", i, j), "returned closing signature also verifies when value is moved between two slots".into());
+            }
+        }
+        {
+            let mut other = truth.cl;
+            other.swap(3, 4);
+            if other != truth.cl && unblinds_to_signature_on(m, &cs, &d.cl.bf, &other) {
+                o.violate("closing-signature-ignores-slot", "initialize/closing-signature/balances-swapped", "returned closing signature also verifies with the balances swapped".into());
+            }
+        }
         if let Some(vbs) = at.vbs {
             let mut rng = SimRng::new(seed, "c01/control/activate");
             let pt = crate::atoms::encode(&m.cfg.activate(&mut rng, vbs));
